@@ -255,7 +255,7 @@ def parsers():
     return _parsers
 
 
-class _Hang(Exception):
+class _Hang(BaseException):
     pass
 
 
@@ -304,12 +304,21 @@ def project(r):
 
 
 def evaluate(text: str, version: str):
+    """outcome of one evaluation.  The hang detector is a wall-clock alarm; on a loaded machine a
+    starved worker can trip it, so a hang is only reported when a second, longer attempt hangs too."""
+    r = _evaluate_once(text, version, 10)
+    if r[0] == 'hang':
+        r = _evaluate_once(text, version, 90)
+    return r
+
+
+def _evaluate_once(text: str, version: str, timeout: int):
     import elementpath
     from elementpath.exceptions import ElementPathError
     use_alarm = threading.current_thread() is threading.main_thread()
     if use_alarm:
         signal.signal(signal.SIGALRM, _on_alarm)
-        signal.alarm(10)
+        signal.alarm(timeout)
     try:
         if '/r/n[' in text or '(//n)[' in text:
             r = elementpath.select(root(), text, parser=parsers()[version])     # sequences with nodes
